@@ -3,6 +3,7 @@ under the deterministic kernel.  A run is a pure function of (scenario,
 choice list); everything it observed is kept in the World for the oracles."""
 import gc
 import re
+import sys
 
 from . import kernel, seams, simstd
 from .faults import FaultPlan
@@ -81,10 +82,13 @@ class World:
             # simulation, so the first run of a process is like every other
             _RecordingSubscriber = make_subscriber_cls()
             _RecordingSubscriber(None, 0, 0, {})
+            _RecordingSubscriber.Adapter(None, 0, 0, {})
         self.scenario = scenario
         self.knobs = scenario.get('knobs', {})
         self.sim = kernel.Sim(chooser, max_steps=max_steps or scenario.get('max_steps', 60000),
                               epoch=self.knobs.get('epoch', 1000.0))
+        # fault: a thread of some stage is descheduled for a while at one point
+        self.sim.stall_plan = [list(x) for x in self.knobs.get('stalls') or []]
         self.faults = FaultPlan(scenario.get('faults'), self)
         self.s3 = SimS3(self, self.knobs)
         self.fs = SimFS(self)
@@ -129,6 +133,20 @@ class World:
             # cancellation entry points and stages are about the threaded manager
             return
         self.violations.append((prop, cls, msg, sig or {}))
+
+    def fs_latency(self, op, path, first=False):
+        mode = self.knobs.get('fs_latency', 'none')
+        if mode == 'none':
+            return 0
+        if mode == 'random':
+            return (0, 0, 0.01, 0.25)[self.sim.choose(4, 'fslat')]
+        if mode == 'slow_open':
+            return 1.0 if op == 'open' else 0
+        if mode == 'slow_write':
+            return 0.5 if op == 'write' else 0
+        if mode == 'slow_first_write':
+            return 1.0 if op == 'write' and first else 0
+        return 0
 
     def latency(self, op, m):
         mode = self.lat_mode
@@ -276,14 +294,44 @@ class World:
                 super().__init__(max_workers=max_workers,
                                  thread_name_prefix=role)
                 self.role = role
+                self._role_known = False
                 self._work_queue = _RecordingWorkQueue(world, self)
                 self.occ = 0
                 self.pending_bytes = 0
                 self.max_occ = 0
                 self.submitted = 0
                 world.executors.append(self)
+                # building a pool is not atomic for the thread that does it; when
+                # a WORKER thread of the manager does it (pools created on
+                # demand) it may also be slow - a cooperative fault point
+                sim = world.sim
+                sim.spoint('executor.new')
+                cur = sim.current
+                if cur is not None and cur.role != 'driver' and not sim.unwinding \
+                        and sim.choose(2, 'slow-pool'):
+                    world.probe('slow-pool-construction')
+                    sim.sleep(1.0)
+
+            def _resolve_role(self):
+                """Which stage this pool serves is decided by WHO submits to it
+                (the manager's BoundedExecutor calling us), not by the order in
+                which pools happen to be constructed."""
+                self._role_known = True
+                f = sys._getframe(2)
+                for _ in range(6):
+                    if f is None:
+                        break
+                    role = world._stage_of(f.f_locals.get('self'))
+                    if role is not None:
+                        if role != self.role and not self._threads:
+                            self.role = role
+                            self._thread_name_prefix = role
+                        return
+                    f = f.f_back
 
             def submit(self, fn, *args, **kwargs):
+                if not self._role_known:
+                    self._resolve_role()
                 self.occ += 1
                 self.submitted += 1
                 if self.occ > self.max_occ:
@@ -311,6 +359,17 @@ class World:
                 return super().submit(run, *args, **kwargs)
 
         return CountingExecutor
+
+    def _stage_of(self, owner):
+        if owner is None:
+            return None
+        mgr = getattr(self, 'manager', None)
+        for attr, role in (('_request_executor', 'request'),
+                           ('_submission_executor', 'submission'),
+                           ('_io_executor', 'io')):
+            if mgr is not None and getattr(mgr, attr, None) is owner:
+                return role
+        return None
 
     @staticmethod
     def _still_referenced(task, body):
@@ -568,6 +627,9 @@ class World:
         if ty == 'skip':
             return None
         extra = dict(spec.get('extra_args') or {})
+        if extra.get('ChecksumCRC32') == '@full':
+            from .s3 import crc32_b64
+            extra['ChecksumCRC32'] = crc32_b64(bytes(t['expect']))
         t['submit_stamp'] = self.sim.stamp()
         if self.serial:
             try:
